@@ -216,7 +216,7 @@ class CircuitGridIterator(CircuitIterator):
             # iterate through the entire circuit normally
             self.qudits = list(range(self.circuit.num_qudits))
             self.region = CircuitRegion({
-                qudit: (0, self.circuit.num_cycles)
+                qudit: (0, max(self.circuit.num_cycles - 1, 0))
                 for qudit in self.qudits
             })
 
@@ -238,7 +238,7 @@ class CircuitGridIterator(CircuitIterator):
 
             self.qudits = list(qudits_or_region)
             self.region = CircuitRegion({
-                qudit: (0, self.circuit.num_cycles)
+                qudit: (0, max(self.circuit.num_cycles - 1, 0))
                 for qudit in self.qudits
             })
 
